@@ -1112,7 +1112,7 @@ impl CanonicalizeContext {
 
 				// could have deleted all the children (e.g., they were all mphantoms) -- same as an mrow that was empty to start with
 				if element_name == "mrow" && children.is_empty() && mathml.attribute(INTENT_ATTR).is_none() {
-					return if parent_requires_child {Some(mathml)} else {None};
+					return if parent_requires_child {Some( CanonicalizeContext::make_empty_element(mathml) )} else {None};
 				}
 
 				// could have deleted children so only one child remains -- need to lift it
